@@ -205,17 +205,29 @@ func (s *handler) handleReader(ctx context.Context, r io.Reader, w io.Writer, rp
 		}
 
 		_, _ = w.Write([]byte("[")) // todo consider handling this error
-		for idx, req := range reqs {
-			if req.ID, err = normalizeID(req.ID); err != nil {
-				rpcError(wf, &req, rpcParseError, xerrors.Errorf("failed to parse ID: %w", err))
-				return
+		wroteElem := false
+		for _, req := range reqs {
+			// Each element is rendered into its own buffer: notifications produce
+			// no response, and separators must only be written between responses.
+			var elem bytes.Buffer
+			ewf := func(cb func(io.Writer)) {
+				cb(&elem)
 			}
 
-			s.handle(ctx, req, wf, rpcError, func(bool) {}, nil)
+			if req.ID, err = normalizeID(req.ID); err != nil {
+				rpcError(ewf, &req, rpcParseError, xerrors.Errorf("failed to parse ID: %w", err))
+			} else {
+				s.handle(ctx, req, ewf, rpcError, func(bool) {}, nil)
+			}
 
-			if idx != len(reqs)-1 {
+			if elem.Len() == 0 {
+				continue
+			}
+			if wroteElem {
 				_, _ = w.Write([]byte(",")) // todo consider handling this error
 			}
+			_, _ = w.Write(elem.Bytes()) // todo consider handling this error
+			wroteElem = true
 		}
 		_, _ = w.Write([]byte("]")) // todo consider handling this error
 	} else {
